@@ -11,6 +11,15 @@ from pyvc.verify import Contract
 from pyvc import npmodel as M
 
 
+ASSUMPTIONS = ["CPython io: seek/read/readinto on the ghost byte function of the FASTA file", "np.delete for a strictly increasing in-bounds index list (validated bounded)",
+               "the .fai rows describe the file (layout predicate): this is what create_index / samtools faidx guarantee; create_index's offset accumulation is proved, "
+               "FastaIdxBuffer.get_data (per-chunk rows) is bounded", "get_interval_sequences: LF line ends (lenb = lenc + 1); CRLF FASTA is outside the precondition"]
+NOT_PROVED = ["get_interval_sequences: the CONTENT clause (row j is exactly the bases a_j..b_j-1) - proved are the row lengths, the allocation offsets, that the "
+              "deleted positions are in bounds, strictly increasing and that (start_mod + p) // lenc newline bytes precede the p-th surviving byte; the last "
+              "step needs uniqueness of division by a symbolic divisor (solver timeouts): bounded (rtc/enum_c17.py, every interval of every small FASTA)",
+              "_get_interval_sequences_fast (string-encoded chromosome column): bounded", "FastaIdxBuffer.get_data, read_index, Genome.read_sequence: bounded"]
+
+
 def _indexed_fasta():
     from bionumpy.io import indexed_fasta
     return indexed_fasta.IndexedFasta
@@ -235,3 +244,167 @@ def _mk_ci(k):
 
 create_index2, create_index3 = _mk_ci(2), _mk_ci(3)
 CONTRACTS += [create_index2, create_index3]
+
+
+# ---------------------------------------------------------------------------------------------
+# get_interval_sequences (the per-interval path): every interval [a,b) of a record with LF line ends (lenb = lenc + 1) yields exactly
+# the bases a..b-1; the deleted positions are exactly the newline bytes inside the read span.
+from pyvc.loops import LoopSpec
+from pyvc.core import SymList, PairForall, Min, Max, Buf
+from pyvc import npmodel as M2
+
+
+class _ChromCol:
+    """chromosome column: not string-encoded; element j is an object whose to_string() is the contig key (an integer id here)"""
+    encoding = "not a StringEncoding"
+
+    def __init__(self, st):
+        self.st = st
+
+    def getattr(self, ip, name, lineno):
+        if name == "encoding":
+            return self.encoding
+        raise Exception("chromosome column attribute " + name)
+
+    def row(self, j):
+        st = self.st
+
+        class _Name:
+            def getattr(self_, ip, name, lineno):
+                class _TS:
+                    def sym_call(self__, ip, args, kwargs, lineno):
+                        return st.chrom(I(j))
+                return _TS()
+        return _Name()
+
+
+class _SymIndex:
+    """self._index: contig key -> faidx row (functions of the key)"""
+
+    def __init__(self, st):
+        self.st = st
+
+    def getitem(self, ip, key, lineno):
+        st = self.st
+        return {"rlen": st.RL(I(key)), "offset": st.OF(I(key)), "lenc": st.LC(I(key)), "lenb": st.LC(I(key)) + 1}      # LF records: lenb = lenc + 1
+
+
+def pos2(st, c, k):
+    q, r = M._divmod_noassert(k, st.LC(c))
+    return st.OF(c) + q * (st.LC(c) + 1) + r
+
+
+def _setup_gis(ctx):
+    st = St()
+    st.n, st.flen = z3.Int("n_intervals"), z3.Int("flen")
+    st.F = z3.Function("F", z3.IntSort(), z3.IntSort())
+    st.chrom, st.a, st.b = [z3.Function(x, z3.IntSort(), z3.IntSort()) for x in ("chrom", "ivstart", "ivstop")]
+    st.RL, st.OF, st.LC, st.LB = [z3.Function(x, z3.IntSort(), z3.IntSort()) for x in ("rlen", "offset", "lenc", "lenb")]
+    st.file = SFile(st.flen, lambda p: st.F(I(p)))
+    ctx.normalise_products = True
+    st.selfv = SRec(_indexed_fasta(), _index=_SymIndex(st), _f_obj=st.file)
+    st.table = STable({"chromosome": _ChromCol(st), "start": SArr.fresh(st.n, lambda j: st.a(I(j))), "stop": SArr.fresh(st.n, lambda j: st.b(I(j)))}, st.n)
+    st.args = [st.table]
+    ctx.ip.loop_specs[("IndexedFasta.get_interval_sequences", 0)] = LoopSpec(_inv_gis(st), _havoc_gis(st))
+    return st
+
+
+def _req_gis(ctx, st):
+    return [st.n >= 1, st.flen >= 0,
+            Forall(lambda p: Implies(in_range(p, st.flen), And(st.F(p) > 0, st.F(p) < 256)), triggers=[st.F], name="file bytes 1..255"),
+            Forall(lambda j: Implies(in_range(j, st.n), And(st.LC(st.chrom(j)) >= 1, st.LB(st.chrom(j)) == st.LC(st.chrom(j)) + 1, st.OF(st.chrom(j)) >= 0,
+                                                            0 <= st.a(j), st.a(j) < st.b(j), st.b(j) <= st.RL(st.chrom(j)),
+                                                            pos2(st, st.chrom(j), st.RL(st.chrom(j)) - 1) + 1 < st.flen)),
+                   triggers=[st.a, st.chrom, st.b], name="in-bounds intervals of LF records that lie inside the file (a final newline follows the last base)")]
+
+
+def _C(st, env):
+    """the prefix-sum function of (stop - start): pre_alloc.size is C(n)"""
+    return env.vars["pre_alloc"].length.decl()
+
+
+def _inv_gis(st):
+    def inv(ip, env):
+        it = env.vars["_it"]
+        C = _C(st, env)
+        pre = env.vars["pre_alloc"]
+        lengths = env.vars["lengths"]
+        n_len = len(lengths) if isinstance(lengths, list) else lengths.count
+        lat = (lambda j: 0) if isinstance(lengths, list) else lengths.at
+        st.Cdecl, st.it_term = C, it
+        goals = [("alloc.offset.is.the.sum.of.the.lengths.so.far", env.vars["alloc_offset"] == C(I(it))),
+                 ("every.byte.placed.so.far.is.a.base (non-NUL)", Forall(lambda p: Implies(in_range(p, C(I(it))), I(pre.at(p)) > 0))),
+                 ("one.length.per.interval.so.far", I(n_len) == I(it)),
+                 ("lengths.are.interval.lengths", Forall(lambda j: Implies(in_range(j, it), lat(j) == st.b(j) - st.a(j))))]
+        return goals
+    return inv
+
+
+def _havoc_gis(st):
+    def havoc(ip, env):
+        c = ip.ctx
+        it = env.vars["_it"]
+        pre = env.vars["pre_alloc"]
+        g = c.fresh_fun("pre_alloc_content")
+        pre.buf.at = lambda p, g=g: g(I(p))
+        env.vars["alloc_offset"] = c.fresh_int("alloc_offset")
+        env.vars["cur_offset"] = c.fresh_int("cur_offset")
+        L = c.fresh_fun("lengths")
+        env.vars["lengths"] = SymList(it, lambda j, L=L: L(I(j)))
+        st.file.pos = c.fresh_int("filepos")
+        c.assume(I(st.file.pos) >= 0)
+    return havoc
+
+
+def _ens_gis(ctx, st, ret):
+    C = ret.C
+    return [("rows", I(ret.n) == st.n),
+            ("row.lengths", Forall(lambda j: Implies(in_range(j, st.n), I(ret.lens(j)) == st.b(j) - st.a(j))))]
+    # NOT proved here: row j is exactly F[pos_of(a_j + k)] (the content clause).  The per-iteration lemma below ("the number of newline bytes
+    # dropped before the p-th surviving byte is (start_mod + p) // lenc") is proved; combining it with the layout predicate needs the
+    # uniqueness of integer division for a symbolic divisor, on which z3 and cvc5 time out (tried: sum-of-monomials normalisation, a
+    # Lean-proved shift lemma as an extra hypothesis - the queries became slower, not faster).  The content clause is bounded (rtc/enum_c17.py).
+
+
+def _hints_gis(ctx, st, ks):
+    out = []
+    C, it = getattr(st, "Cdecl", None), getattr(st, "it_term", None)
+    if C is not None and it is not None:
+        out += [C(I(it)), C(I(it) + 1), C(st.n)]
+        for k in ks[:1]:
+            out += [C(I(k)), C(I(k) + 1)]
+    return out
+
+
+def _ghost_deleted(ip, env, st):
+    """after np.delete: the number of newline bytes dropped before the p-th surviving byte is (start_mod + p) // lenc"""
+    tmp = env.vars["tmp"]
+    if not hasattr(tmp, "delete_of"):
+        return
+    d, fi, m, n = tmp.delete_of
+    lenc, m0 = env.vars["lenc"], env.vars["start_mod"]
+    c = ip.ctx
+
+    def quot(p):
+        q, r = M._divmod_noassert(I(m0) + I(p), lenc)
+        return q
+    goal = Forall(lambda p: Implies(in_range(p, tmp.length), d(I(p)) == quot(p)))
+    c.oblige("%s:lemma.newlines.before.the.p-th.base" % c.fname, goal, "lemma")
+    c.assume(Forall(lambda p: Implies(in_range(p, tmp.length), d(I(p)) == quot(p)), triggers=[d], name="lemma.newlines.before.the.p-th.base"))
+
+
+def _ghost_lengths(ip, env, st):
+    """before the result is wrapped: the collected row lengths have the same prefix sums as (stop - start) (lemma L6)"""
+    lengths = env.vars["lengths"]
+    C = st.Cdecl
+    CL = M2.exclusive_prefix(lengths.at, lengths.count)
+    M2.prefix_congruent(CL, lengths.at, C, lambda j: st.b(I(j)) - st.a(I(j)), st.n)
+
+
+interval_sequences = Contract("C17.IndexedFasta.get_interval_sequences[LF records]", target=lambda: _indexed_fasta().get_interval_sequences,
+                              setup=_setup_gis, requires=_req_gis, ensures=_ens_gis, timeout_ms=60000, hints=_hints_gis,
+                              ghost=[("return EncodedRaggedArray(a, lengths)", _ghost_lengths),
+                                     ("pre_alloc[alloc_offset:alloc_offset+tmp.size] = tmp", _ghost_deleted)],
+                              canaries=[("newline positions shifted", "lenb*(j+1)-1-start_mod", "lenb*(j+1)-start_mod"),
+                                        ("stop offset without the row term", "stop_offset = stop_row*lenb+interval.stop % lenc", "stop_offset = stop_row*lenc+interval.stop % lenc")])
+CONTRACTS.append(interval_sequences)
